@@ -13,7 +13,7 @@
 //!   cases `0 .. n` are *kernel* cases: a small scripted `MultiNodeSimulation` scenario whose
 //!   gossip rounds are printed as a Coq term for Corr/C20.v (the model must reproduce queue
 //!   contents, delivery, and the number of RNG draws consumed);
-//!   cases `n ..` are (harness, preset, seed) triples: the worker is spawned twice as a child
+//!   cases `1000000 ..` are (harness, preset, seed) triples: the worker is spawned twice as a child
 //!   process (fresh `RandomState` keys each) and run once more in this process; the three
 //!   outputs must be byte-identical.  A difference is a violation whose detail carries the
 //!   first differing lines; `--only i` replays one case of either kind.
@@ -106,6 +106,7 @@ const HARNESSES: &[(&str, &[&str])] = &[
     ("connection", &["batched", "unbatched", "partial50", "pipeline_sim"]),
     ("scenario", &["plain", "buggify10", "eviction"]),
     ("event_sim", &["drop0", "drop30_partition"]),
+    ("io_sim", &["calm", "moderate", "chaos"]),
 ];
 
 macro_rules! step_dst {
@@ -387,6 +388,33 @@ fn worker(harness: &str, preset: &str, seed: u64) -> String {
             o.push_str(&trace);
             writeln!(o, "end t={:?} next_rng={}", sim.current_time(), sim.rng().next_u64()).unwrap();
         }
+        "io_sim" => {
+            // the seeded pieces of src/io/simulation.rs and src/buggify that have a safe public
+            // API: SimulatedRng, SimulationContext (global time, ids, per-node clock skew) and
+            // the BUGGIFY decision function over every registered fault id
+            use redis_sim::buggify::{self, FaultConfig, ALL_FAULTS};
+            use redis_sim::io::simulation::{ClockOffset, NodeId, SimulatedRng, SimulationContext};
+            use redis_sim::io::{Duration as IoDuration, Rng as IoRng, Timestamp};
+            let fc = match preset { "moderate" => FaultConfig::moderate(), "chaos" => FaultConfig::chaos(), _ => FaultConfig::calm() };
+            buggify::reset_stats();
+            let ctx = SimulationContext::new(seed, fc);
+            let mut rng = SimulatedRng::new(seed);
+            for n in 0..4 {
+                let off = ClockOffset { fixed_offset_ms: rng.gen_range(0, 2000) as i64 - 1000, drift_ppm: rng.gen_range(0, 10_000) as i64 - 5000, drift_anchor: Timestamp::from_millis(0) };
+                ctx.set_clock_offset(NodeId(n), off);
+            }
+            for i in 0..120 {
+                ctx.advance_by(IoDuration::from_millis(rng.gen_range(1, 500)));
+                let fault = ALL_FAULTS[rng.gen_range(0, ALL_FAULTS.len() as u64) as usize];
+                let hit = buggify::should_buggify(&mut rng, fault);
+                let mut v: Vec<u8> = (0..8).collect();
+                rng.shuffle(&mut v);
+                let local: Vec<u64> = (0..4).map(|n| ctx.local_time(NodeId(n)).as_millis()).collect();
+                writeln!(o, "step[{}] now={} id={} local={:?} fault={} hit={} coin={} shuffle={:?}", i, ctx.now().as_millis(), ctx.next_id(), local, fault, hit, rng.gen_bool(0.3), v).unwrap();
+            }
+            let st = buggify::get_stats();
+            writeln!(o, "buggify checks={} triggers={} next_rng={}", sorted_map(st.checks.iter()), sorted_map(st.triggers.iter()), rng.next_u64()).unwrap();
+        }
         _ => {
             writeln!(o, "unknown harness").unwrap();
         }
@@ -624,8 +652,11 @@ fn kernel_case(seed: u64, i: u64) -> KernelCase {
 // default role: enumerate, spawn, compare
 // ---------------------------------------------------------------------------------------
 
-fn triple_of(seed: u64, n_kernel: u64, dseeds: u64, idx: u64) -> Option<(String, String, u64)> {
-    let t = idx.checked_sub(n_kernel)?;
+/// triples are numbered from TRIPLE_BASE so that a case index means the same with any --n
+const TRIPLE_BASE: u64 = 1_000_000;
+
+fn triple_of(seed: u64, dseeds: u64, idx: u64) -> Option<(String, String, u64)> {
+    let t = idx.checked_sub(TRIPLE_BASE)?;
     let mut pairs: Vec<(&str, &str)> = Vec::new();
     for (h, ps) in HARNESSES {
         for p in *ps {
@@ -658,8 +689,12 @@ fn first_diff(a: &str, b: &str) -> (usize, String, String) {
     for i in 0..la.len().max(lb.len()) {
         let (x, y) = (la.get(i).copied().unwrap_or("<end of output>"), lb.get(i).copied().unwrap_or("<end of output>"));
         if x != y {
-            let cut = |s: &str| s.chars().take(600).collect::<String>();
-            return (i + 1, cut(x), cut(y));
+            // long lines: a window around the first differing character
+            let (cx, cy): (Vec<char>, Vec<char>) = (x.chars().collect(), y.chars().collect());
+            let common = cx.iter().zip(cy.iter()).take_while(|(a, b)| a == b).count();
+            let from = common.saturating_sub(120);
+            let cut = |c: &Vec<char>| format!("{}{}", if from > 0 { format!("<{} chars> ...", from) } else { String::new() }, c.iter().skip(from).take(420).collect::<String>());
+            return (i + 1, cut(&cx), cut(&cy));
         }
     }
     (0, String::new(), String::new())
@@ -673,15 +708,19 @@ struct Diff {
     a: String,
     b: String,
     c: String,
+    c2: String,
 }
 
 fn run_triple(idx: u64, h: &str, p: &str, s: u64) -> Diff {
     let a = spawn_worker(h, p, s);
     let b = spawn_worker(h, p, s);
-    // third run inside this (long-lived) process, on a fresh thread
+    // third and fourth run inside this (long-lived) process, one after the other on one thread
+    // (thread-local simulator state, if any, is carried from the first to the second)
     let (h2, p2) = (h.to_string(), p.to_string());
-    let c = std::thread::spawn(move || run_worker_caught(&h2, &p2, s)).join().unwrap_or_else(|_| "IN-PROCESS RUN DIED\n".to_string());
-    Diff { idx, h: h.to_string(), p: p.to_string(), s, a, b, c }
+    let (c, c2) = std::thread::spawn(move || (run_worker_caught(&h2, &p2, s), run_worker_caught(&h2, &p2, s)))
+        .join()
+        .unwrap_or_else(|_| ("IN-PROCESS RUN DIED\n".to_string(), String::new()));
+    Diff { idx, h: h.to_string(), p: p.to_string(), s, a, b, c, c2 }
 }
 
 fn main() {
@@ -697,14 +736,14 @@ fn main() {
     }
     std::panic::set_hook(Box::new(|_| {}));
     let mut out = Out::new(&args.out, "C20", args.shards, HEADER);
-    out.nontrivial_rule = "cases 0..n: kernel cases = scripted MultiNodeSimulation runs (2-6 nodes, broadcast or selective rf 1-3, loss 0/.1/.3/.5/.9/1, five delay ranges, 3-8 gossip rounds with writes, partitions, heals, time advances) printed for the Coq model; non-trivial = selective routing with a routing table of >= 2 targets and 0 < loss < 1 (the iteration order decides which target gets which draw); distinct by script and observed queues. cases n..: (harness, preset, seed) triples, each run in two child processes and once in-process, outputs compared byte for byte (counted in impl_property_checks and the harness:<name> counters)".into();
+    out.nontrivial_rule = "cases 0..n: kernel cases = scripted MultiNodeSimulation runs (2-6 nodes, broadcast or selective rf 1-3, loss 0/.1/.3/.5/.9/1, five delay ranges, 3-8 gossip rounds with writes, partitions, heals, time advances) printed for the Coq model; non-trivial = selective routing with a routing table of >= 2 targets and 0 < loss < 1 (the iteration order decides which target gets which draw); distinct by script and observed queues. cases 1000000..: (harness, preset, seed) triples, each run in two child processes and once in-process, outputs compared byte for byte (counted in impl_property_checks and the harness:<name> counters)".into();
     let dseeds = args.get("dseeds", 3).max(1);
     let n_pairs: u64 = HARNESSES.iter().map(|(_, ps)| ps.len() as u64).sum();
     let n_triples = n_pairs * dseeds;
-    let range: Vec<u64> = match args.only { Some(i) => vec![i], None => (0..args.n + n_triples).collect() };
+    let range: Vec<u64> = match args.only { Some(i) => vec![i], None => (0..args.n).chain(TRIPLE_BASE..TRIPLE_BASE + n_triples).collect() };
 
     // kernel cases
-    for &i in range.iter().filter(|&&i| i < args.n) {
+    for &i in range.iter().filter(|&&i| i < TRIPLE_BASE) {
         let k = kernel_case(args.seed, i);
         out.count(&k.kind);
         if args.only.is_some() {
@@ -715,9 +754,10 @@ fn main() {
     }
 
     // differential triples, a few at a time in parallel
-    let todo: Vec<(u64, String, String, u64)> = range.iter().filter(|&&i| i >= args.n).filter_map(|&i| triple_of(args.seed, args.n, dseeds, i).map(|(h, p, s)| (i, h, p, s))).collect();
+    let todo: Vec<(u64, String, String, u64)> = range.iter().filter(|&&i| i >= TRIPLE_BASE).filter_map(|&i| triple_of(args.seed, dseeds, i).map(|(h, p, s)| (i, h, p, s))).collect();
     let work = std::sync::Arc::new(std::sync::Mutex::new(todo.into_iter()));
     let results = std::sync::Arc::new(std::sync::Mutex::new(Vec::<Diff>::new()));
+    let replaying = args.only.is_some();
     let threads: Vec<_> = (0..args.get("jobs", 8))
         .map(|_| {
             let (work, results) = (work.clone(), results.clone());
@@ -725,7 +765,14 @@ fn main() {
                 let item = work.lock().unwrap().next();
                 match item {
                     Some((i, h, p, s)) => {
-                        let d = run_triple(i, &h, &p, s);
+                        let mut d = run_triple(i, &h, &p, s);
+                        // a replay repeats the comparison a few times: which iteration order a
+                        // process draws is random, so one pair of runs can agree by chance
+                        let mut tries = if replaying { 7 } else { 0 };
+                        while tries > 0 && d.a == d.b && d.a == d.c && d.a == d.c2 {
+                            d = run_triple(i, &h, &p, s);
+                            tries -= 1;
+                        }
                         results.lock().unwrap().push(d);
                     }
                     None => break,
@@ -739,7 +786,7 @@ fn main() {
     let mut results = std::mem::take(&mut *results.lock().unwrap());
     results.sort_by_key(|d| d.idx);
     for d in results {
-        out.impl_checks += 2; // process A vs process B, process A vs in-process
+        out.impl_checks += 3; // process A vs process B, process A vs in-process run 1, vs in-process run 2
         out.count(&format!("harness:{}", d.h));
         if d.a.lines().count() < 2 || d.a.contains("unknown harness") {
             out.violation(d.idx, "worker produced no output", json!({"harness": d.h, "preset": d.p, "hseed": d.s, "output": d.a.chars().take(500).collect::<String>()}));
@@ -773,8 +820,18 @@ fn main() {
             if args.only.is_some() {
                 println!("DIFFERENT child vs in-process at line {}:\n  A: {}\n  C: {}", ln, x, y);
             }
+        } else if d.a != d.c2 {
+            let (ln, x, y) = first_diff(&d.a, &d.c2);
+            out.violation(
+                d.idx,
+                &format!("harness {} preset {} seed {}: the second of two consecutive runs in one process differs from a fresh process (first difference at line {})", d.h, d.p, d.s, ln),
+                json!({"harness": d.h, "preset": d.p, "hseed": d.s, "between": "child process A vs second consecutive run inside the driver process", "line": ln, "process_a": x, "in_process_second": y}),
+            );
+            if args.only.is_some() {
+                println!("DIFFERENT child vs second in-process run at line {}:\n  A: {}\n  C2: {}", ln, x, y);
+            }
         } else if args.only.is_some() {
-            println!("identical in 2 child processes and in-process");
+            println!("identical in 2 child processes and in 2 consecutive in-process runs");
         }
     }
     out.finish(args.seed);
